@@ -219,7 +219,7 @@ func runBubble(tp *core.Tape, e *core.Env, sc *WScenario, which cyc.Which, res *
 				quietStart = doneCycles
 				// end every fault window, roll files out
 				for _, p := range w.CL.AllPods() {
-					p.UnreachableUntil, p.NotReadyUntil = time.Time{}, time.Time{}
+					p.UnreachableUntil, p.NotReadyUntil, p.ReloadFailUntil = time.Time{}, time.Time{}, time.Time{}
 				}
 				w.failGetUntil = map[string]time.Time{}
 				w.loseNextPost = map[string]string{}
@@ -269,7 +269,9 @@ func runBubble(tp *core.Tape, e *core.Env, sc *WScenario, which cyc.Which, res *
 			lastChange = t
 		}
 		w.ReleaseProbes()
+		w.ReleaseHeld(t, false)
 		w.RunScrapes(t)
+		w.trackEmpty(t)
 		if phase == "quiet" && int(t.Sub(w.start)/time.Second)%60 == 0 {
 			for _, p := range w.CL.AllPods() {
 				if p.Prom != nil {
@@ -381,6 +383,18 @@ func (w *World) maybeFault(tr *cyc.CycleTrace) bool {
 		return false
 	}
 	p := running[tp.Choose("fault_pod", len(running))]
+	if k == "prom_reload_fails" {
+		// a shard about to be refilled is the interesting victim: prefer empty ones
+		var empty []*Pod
+		for _, x := range running {
+			if x.EmptySince != nil {
+				empty = append(empty, x)
+			}
+		}
+		if len(empty) > 0 && tp.Bool("prefer_empty_pod", 3, 4) {
+			p = empty[tp.Choose("fault_empty_pod", len(empty))]
+		}
+	}
 	now := time.Now()
 	dur := time.Duration(5+tp.Choose("fault_window_s", 40)) * time.Second
 	switch k {
@@ -410,6 +424,9 @@ func (w *World) maybeFault(tr *cyc.CycleTrace) bool {
 		w.CL.SetDesired(r, n)
 		w.E.Fault("external_scale")
 		k = fmt.Sprintf("external_scale(%d->%d)", cur, n)
+	case "prom_reload_fails":
+		p.ReloadFailUntil = now.Add(dur)
+		w.E.Fault("prom_reload_fails")
 	case "config_out_of_sync":
 		// the coordinator's configuration changes; file-mode sidecars keep the old file until the rollout
 		w.applyEvent(WEvent{Kind: "config_edit"})
